@@ -56,6 +56,7 @@ fn run_case(line: &str) -> String {
         "bflag" => s_dhcpwire::bflag(args),
         "pool" => s_pool::history(args),
         "dhcp" => s_dhcp::history(args),
+        "dhcpcfg" => s_dhcp::cfgsets(args),
         "acl" => s_acl::check(args),
         "leasejson" => s_acl::leasejson(args),
         "bucket" => s_dns::bucket(args),
